@@ -145,4 +145,13 @@ emit(coroutine.resume(coroutine.create(emit), 5, 6))`,
 emit(coroutine.resume(outer)); emit(coroutine.resume(outer)); emit(coroutine.resume(outer))`,
 	`local co = coroutine.wrap(function() local x = 1; local f = function() x = x + 1 return x end; coroutine.yield(f); x = x + 10; coroutine.yield(f); error({}) end); local f = co(); emit(f()); co(); emit(f()); emit(pcall(co)); emit(f(), f())`,
 	`local self = coroutine.wrap(function() return coroutine.resume(coroutine.running()) end); emit(self())`,
+	// coroutine boundary cases (cmd/c06/boundary.go): resume of a wrap-created thread, yield under pcall / a metamethod /
+	// an iterator ("attempt to yield across metamethod/C-call boundary"), legal yields around pcall, a Go-function body that yields
+	`local th; local w = coroutine.wrap(function(...) th = coroutine.running(); local a = coroutine.yield(1); return a end); emit(w()); emit(coroutine.resume(th, 5)); emit(coroutine.status(th))`,
+	`local co = coroutine.create(function() emit("r", pcall(function() emit("in"); local v = coroutine.yield(1); emit("back", v); return 7 end)); return 9 end); emit(coroutine.resume(co)); emit(coroutine.status(co)); emit(coroutine.resume(co, 2))`,
+	`local co = coroutine.create(function() emit(pcall(coroutine.yield, 1)); return 9 end); emit(coroutine.resume(co)); emit(coroutine.status(co))`,
+	`local co = coroutine.create(function() local t = setmetatable({}, {__index = function(t, k) return coroutine.yield(k) end}); emit("got", t.x); return 9 end); emit(coroutine.resume(co)); emit(coroutine.status(co)); emit(coroutine.resume(co, 2))`,
+	`local co = coroutine.create(function() for k in function() return coroutine.yield(5) end do emit("k", k); break end; return 9 end); emit(coroutine.resume(co)); emit(coroutine.resume(co, 2)); emit(coroutine.status(co))`,
+	`local co = coroutine.wrap(function() local ok = pcall(error, "x"); local v = coroutine.yield(ok); local ok2, e = pcall(function() error("y", 0) end); coroutine.yield(v, ok2, e); return "end" end); emit(co()); emit(co(4)); emit(co())`,
+	`local w = coroutine.wrap(coroutine.yield); emit(w(1)); emit(pcall(w, 2, 3)); emit(pcall(w, 3)); local co = coroutine.create(coroutine.yield); emit(coroutine.resume(co, 1, 2)); emit(coroutine.status(co)); emit(coroutine.resume(co, 7, 8)); emit(coroutine.status(co))`,
 }
